@@ -6,8 +6,9 @@ import tempfile
 
 from . import core, tlc
 
-TYPE_PAIRS = [("INT", "DINT"), ("SINT", "USINT"), ("UINT", "UDINT"), ("LINT", "ULINT"), ("REAL", "LREAL"),
-              ("BOOL", "SSTRING"), ("STRING", "INT"), ("DINT", "REAL"), ("USINT", "LINT")]
+# the quick tiers take the first pairs: integers, floating point, BOOL, both string types and an 8-byte type must be among them
+TYPE_PAIRS = [("INT", "DINT"), ("REAL", "LREAL"), ("BOOL", "SSTRING"), ("STRING", "INT"), ("USINT", "LINT"),
+              ("SINT", "USINT"), ("UINT", "UDINT"), ("LINT", "ULINT"), ("DINT", "REAL")]
 
 MC_PROPS = ["INVARIANT TypeOK", "INVARIANT Readable", "PROPERTY FrameOK", "PROPERTY RefusedNoChange",
             "PROPERTY ReadsMemory"]
